@@ -18,9 +18,42 @@ package types
 
 import (
 	"fmt"
+	"strings"
 
 	"github.com/mattn/go-shellwords"
 )
+
+const shellOperators = ";&|<>"
+
+// splitCommand splits a command line into words. The words parser stops at an unquoted shell
+// operator (`echo a && echo b`): a command is not run by a shell, so the operator is a word like the
+// others and splitting goes on after it, instead of silently dropping the rest of the line.
+func splitCommand(line string) ([]string, error) {
+	words := []string{}
+	for {
+		parser := shellwords.NewParser()
+		args, err := parser.Parse(line)
+		if err != nil {
+			return nil, err
+		}
+		words = append(words, args...)
+		if parser.Position < 0 || parser.Position >= len(line) {
+			return words, nil
+		}
+		rest := line[parser.Position:]
+		// (the position is that of a file descriptor number when one precedes a redirection: `2>file`)
+		start := strings.IndexAny(rest, shellOperators)
+		if start < 0 {
+			return words, nil
+		}
+		end := start
+		for end < len(rest) && strings.IndexByte(shellOperators, rest[end]) >= 0 {
+			end++
+		}
+		words = append(words, rest[:end])
+		line = rest[end:]
+	}
+}
 
 // ShellCommand is a string or list of string args.
 //
@@ -74,7 +107,7 @@ func (s ShellCommand) MarshalYAML() (interface{}, error) {
 func (s *ShellCommand) DecodeMapstructure(value interface{}) error {
 	switch v := value.(type) {
 	case string:
-		cmd, err := shellwords.Parse(v)
+		cmd, err := splitCommand(v)
 		if err != nil {
 			return err
 		}
